@@ -377,6 +377,71 @@ pub fn run(ctx: &'static Ctx) {
         ctx.st(n.load(Ordering::Relaxed));
         ctx.engine("E3.every-name", json!({"segments": 27 * 37 * 37 * 37, "paths": n.load(Ordering::Relaxed), "forms": ["relative single", "rooted single", "first of two", "last of two (rooted)", "middle of three"]}));
     }
+    // ---- pairs of names that mean something (two segments special at once): the predefined ACPI names and name families
+    // (_Lxx / _Exx / _Qxx / _Wxx for every xx, _T_x, _ACx, _ALx, _PRx, _PSx, _Sx_, _SxD, _SxW, _EJx, ...) under each of the
+    // predefined scopes and under each other, relative and rooted, and with an ordinary segment in between
+    {
+        const NAMES: &[&str] = &[
+            "_GPE", "_PR_", "_SB_", "_SI_", "_TZ_", "_GL_", "_OS_", "_OSI", "_REV", "_DLM", "_ADR", "_AEI", "_ALC", "_ALI", "_ALN", "_ALP", "_ALR", "_ALT", "_ART", "_ASI", "_ASZ", "_ATT", "_BAS", "_BBN", "_BCL", "_BCM", "_BCT",
+            "_BDN", "_BIF", "_BIX", "_BLT", "_BM_", "_BMA", "_BMC", "_BMD", "_BMS", "_BPC", "_BPS", "_BPT", "_BQC", "_BST", "_BTH", "_BTM", "_BTP", "_CBA", "_CBR", "_CCA", "_CDM", "_CID", "_CLS", "_CPC", "_CR3", "_CRS", "_CRT",
+            "_CSD", "_CST", "_CWS", "_DBT", "_DCK", "_DCS", "_DDC", "_DDN", "_DEC", "_DEP", "_DGS", "_DIS", "_DLM", "_DMA", "_DOD", "_DOS", "_DPL", "_DRS", "_DSD", "_DSM", "_DSS", "_DSW", "_DTI", "_EC_", "_EDL", "_END", "_EVT",
+            "_FDE", "_FDI", "_FDM", "_FIF", "_FIT", "_FIX", "_FLC", "_FPS", "_FSL", "_FST", "_GAI", "_GCP", "_GHL", "_GLK", "_GPD", "_GRA", "_GRT", "_GSB", "_GTF", "_GTM", "_GWS", "_HE_", "_HID", "_HMA", "_HOT", "_HPP", "_HPX",
+            "_HRV", "_IFT", "_INI", "_INT", "_IOR", "_IRC", "_LCK", "_LEN", "_LID", "_LIN", "_LL_", "_LPI", "_LSI", "_LSR", "_LSW", "_MAF", "_MAT", "_MAX", "_MBM", "_MEM", "_MIF", "_MIN", "_MLS", "_MOD", "_MSG", "_MSM", "_MTL",
+            "_MTP", "_NBS", "_NCH", "_NIC", "_NIG", "_NIH", "_NTT", "_OFF", "_ON_", "_OSC", "_OST", "_PAI", "_PAR", "_PCL", "_PCT", "_PDC", "_PDL", "_PHA", "_PIC", "_PIF", "_PIN", "_PLD", "_PMC", "_PMD", "_PMM", "_POL", "_PPC",
+            "_PPE", "_PPI", "_PR0", "_PR1", "_PR2", "_PR3", "_PRE", "_PRL", "_PRR", "_PRS", "_PRT", "_PRW", "_PS0", "_PS1", "_PS2", "_PS3", "_PSC", "_PSD", "_PSE", "_PSL", "_PSR", "_PSS", "_PSV", "_PSW", "_PTC", "_PTP", "_PTS",
+            "_PUR", "_PXM", "_PZL", "_RBO", "_RBW", "_RDI", "_REG", "_RMV", "_RNG", "_ROM", "_RST", "_RT_", "_RTV", "_RW_", "_RXL", "_S0_", "_S1_", "_S2_", "_S3_", "_S4_", "_S5_", "_S1D", "_S2D", "_S3D", "_S4D", "_S0W", "_S1W",
+            "_S2W", "_S3W", "_S4W", "_SBS", "_SCP", "_SDD", "_SEG", "_SHL", "_SHR", "_SIZ", "_SLI", "_SLV", "_SPD", "_SPE", "_SRS", "_SRT", "_SRV", "_SST", "_STA", "_STB", "_STM", "_STP", "_STR", "_STV", "_SUB", "_SUN", "_SWS",
+            "_TC1", "_TC2", "_TDL", "_TFP", "_TIP", "_TIV", "_TMP", "_TPC", "_TPT", "_TRA", "_TRS", "_TRT", "_TSD", "_TSF", "_TSN", "_TSP", "_TSS", "_TST", "_TTP", "_TTS", "_TXL", "_TYP", "_TZD", "_TZM", "_TZP", "_UID", "_UPC",
+            "_UPD", "_UPP", "_VAL", "_VEN", "_VPO", "_WAK", "_WPC", "_WPP", "_AC0", "_AC9", "_AL0", "_AL9", "_EJ0", "_EJ1", "_EJ2", "_EJ3", "_EJ4", "_EJD", "_CCD", "_CLR", "PCI0", "EC0_", "CPU0", "LNKA", "TEST",
+        ];
+        let mut dict: Vec<[u8; 4]> = NAMES.iter().map(|s| { let b = s.as_bytes(); [b[0], b[1], b[2], b[3]] }).collect();
+        let hexd = b"0123456789ABCDEF";
+        for fam in [b'L', b'E', b'Q', b'W'] {
+            for a in hexd {
+                for b in hexd {
+                    dict.push([b'_', fam, *a, *b]);
+                }
+            }
+        }
+        for x in b"0123456789ABCDEFGHIJKLMNOPQRSTUVWXYZ" {
+            dict.push([b'_', b'T', b'_', *x]);
+        }
+        dict.sort();
+        dict.dedup();
+        let scopes: Vec<[u8; 4]> = ["_GPE", "_PR_", "_SB_", "_SI_", "_TZ_", "_GL_", "_OS_", "_OSI", "_REV", "PCI0", "EC0_"].iter().map(|s| { let b = s.as_bytes(); [b[0], b[1], b[2], b[3]] }).collect();
+        let n = AtomicU64::new(0);
+        let lean = |rooted: bool, segs: &[[u8; 4]]| {
+            let s = path_string(rooted, segs);
+            let mut want = vec![];
+            name_encode(rooted, segs, &mut want);
+            match catch(|| ser(&Path::new(&s))) {
+                Ok(b) if b == want => {}
+                _ => check_path(ctx, rooted, segs, "predefined-name pairs"),
+            }
+        };
+        dict.par_iter().for_each(|child| {
+            for sc in &scopes {
+                for rooted in [false, true] {
+                    lean(rooted, &[*sc, *child]);
+                    lean(rooted, &[*child, *sc]);
+                    lean(rooted, &[*sc, seg(3), *child]);
+                    lean(rooted, &[seg(3), *sc, *child]);
+                }
+            }
+            n.fetch_add(8 * scopes.len() as u64, Ordering::Relaxed);
+        });
+        let named: Vec<[u8; 4]> = NAMES.iter().map(|s| { let b = s.as_bytes(); [b[0], b[1], b[2], b[3]] }).collect();
+        named.par_iter().for_each(|a| {
+            for b in &named {
+                lean(false, &[*a, *b]);
+                lean(true, &[*a, *b]);
+            }
+            n.fetch_add(2 * named.len() as u64, Ordering::Relaxed);
+        });
+        ctx.tr(n.load(Ordering::Relaxed));
+        ctx.st(n.load(Ordering::Relaxed));
+        ctx.engine("E3.predefined-name-pairs", json!({"dictionary": dict.len(), "scopes": scopes.len(), "paths": n.load(Ordering::Relaxed)}));
+    }
     ctx.force_sample(json!({"path": "\\_SB_.PCI0.LNKA", "expected": "5c 2f 03 5f53425f 50434930 4c4e4b41"}));
     ctx.force_sample(json!({"path": "ABCD.EFG", "expected": "refused"}));
 }
